@@ -55,8 +55,13 @@ package kernel
 //@   loop 1 invariant forall m int :: 0 <= m && m <= rangeindex_1 ==> !slices.Contains(cs.Transactions, s.Transactions[m])
 
 //@ func (c *CacheRound) asFinal
-//@   property C19
+//@   property C19, C18
 //@   requires RoundOK(c)
 //@   modifies c.Snapshots[..]
 //@   ensures [closed] len(c.Snapshots) == 0 <==> result == nil
 //@   ensures [final] result != nil ==> result.Number == c.Number && result.NodeId == c.NodeId && result.Start <= result.End && result.End < result.Start + config.SnapshotRoundGap
+//@   -- C18: the live node's final round carries exactly ComputeRoundHash's function of (node, number, sorted snapshots)
+//@   ensures [c18-hash] result != nil ==> common.SnapSorted(c.Snapshots) && result.Hash == common.RoundChain(common.RoundSeed(c.NodeId, c.Number), c.Snapshots, len(c.Snapshots))
+//@   ensures [c18-span] result != nil ==> result.Start == c.Snapshots[0].Timestamp && result.End == c.Snapshots[len(c.Snapshots) - 1].Timestamp
+//@   ensures [c18-fresh] result != nil ==> fresh(result)
+//@   ensures [c18-same] forall i int :: 0 <= i && i < len(c.Snapshots) ==> exists j int :: 0 <= j && j < len(c.Snapshots) && c.Snapshots[i] == old(c.Snapshots[j])
